@@ -10,6 +10,7 @@ import (
 	"verif/mc"
 	"verif/props/c02"
 	"verif/props/c07"
+	"verif/props/c08"
 )
 
 type check struct {
@@ -20,6 +21,7 @@ type check struct {
 var checks = map[string]check{
 	"C02": {"model_checking", c02.Run},
 	"C07": {"model_checking", c07.Run},
+	"C08": {"model_checking", c08.Run},
 }
 
 func main() {
